@@ -25,6 +25,15 @@ theorem invocations_in_delivery_order (cfg : HCfg) (eval : σ → SFrame → σ 
     (env : σ) (l : List SFrame) : ((run cfg eval st env l).2.2.2.map (·.2)).Sublist l :=
   invocations_sublist cfg eval st env l
 
+/-- in increasing id order: when the stream is in id order, so are the frames the closure is run
+    for (the subscription's own threshold marker carries a fresh id and is left aside) -/
+theorem invoked_in_increasing_id_order (cfg : HCfg) (eval : σ → SFrame → σ × EvalRes) (st : HState) (env : σ)
+    (resume : Resume) (hist live : List SFrame) (thr : SFrame)
+    (hs : (hist ++ live).Pairwise (fun a b => a.id < b.id)) :
+    (((run cfg eval st env (subscription cfg resume hist live thr)).2.2.2.map (·.2)).filter
+      (fun f => f ≠ thr)).Pairwise (fun a b => a.id < b.id) :=
+  invocations_in_id_order cfg eval st env resume hist live thr hs
+
 /-- never for its own output, never for registration traffic of its name, never once stopped -/
 theorem never_own_nor_registration (cfg : HCfg) (eval : σ → SFrame → σ × EvalRes) (st : HState) (env : σ)
     (f : SFrame) (h : (step cfg eval st env f).2.2.2 = true) :
